@@ -4,9 +4,7 @@
 //@item src/charwise.rs struct State
 //@item src/charwise/mapper.rs struct CodeMapper
 
-spec fn map_code(table: Seq<u32>, c: u32) -> Option<u32> {
-    if c < table.len() && table[c as int] != u32::MAX { Some(table[c as int]) } else { None }
-}
+//@include ghost_mapcode.rs
 
 //@impl src/charwise.rs impl Default for State
 //@fn default
